@@ -3,6 +3,7 @@ import Mkdb.Driver.Page
 import Mkdb.Driver.Tuple
 import Mkdb.Driver.Sql
 import Mkdb.Driver.Console
+import Mkdb.Driver.Csv
 open Mkdb.Driver
 
 def main (args : List String) : IO UInt32 := do
@@ -19,4 +20,6 @@ def main (args : List String) : IO UInt32 := do
   | ["judge", "sql"] => judgeLoop stdin stdout ({} : Sql.J) Sql.judgeLine; return 0
   | ["model", "console"] => modelLoop stdin stdout () Console.stepLine; return 0
   | ["judge", "console"] => judgeLoop stdin stdout ({} : Console.J) Console.judgeLine; return 0
+  | ["model", "csv"] => modelLoop stdin stdout ({} : Csv.St) Csv.stepLine; return 0
+  | ["judge", "csv"] => judgeLoop stdin stdout ({} : Csv.J) Csv.judgeLine; return 0
   | _ => IO.eprintln "usage: mkdbdrv model|judge <proto>"; return 2
